@@ -30,7 +30,8 @@ type encDrv struct {
 	seed  string
 	accts map[int]*acct
 	used  map[string]bool
-	conc  []any // concretisation log (kept in replay files through the behaviour's meta)
+	// recording: no predicted replies, the driver follows the wallet's own answers
+	recording bool
 }
 
 func (d *encDrv) reset(env *core.Env, b *core.Behaviour) error {
@@ -163,7 +164,7 @@ func (d *encDrv) apply(s core.Step) (any, any, error) {
 		err := d.n.setPasswd(d.viaBus(), old, nw)
 		// the driver follows the specification's prediction of the current password; if the code
 		// disagrees the mismatch is reported at this very step
-		if s.Str("ret") == "ok" {
+		if (!d.recording && s.Str("ret") == "ok") || (d.recording && err == nil) {
 			d.pwd = nw
 		}
 		return okfail(err), d.chk(s), nil
@@ -318,4 +319,98 @@ func (d *encDrv) roundTrip(s core.Step) (any, any, error) {
 		}
 	}
 	return "orig", nil, nil
+}
+
+// ---------------------------------------------------------------------------------
+// binding B for C37: long random histories over more accounts, logged with the observed
+// replies and observations; validated by WalletEnc_Trace.tla.
+
+func recordEnc(env *core.Env, emit func(map[string]any)) (*core.Summary, error) {
+	sum := &core.Summary{Counters: map[string]int{}}
+	n := env.OptInt("n", 8)
+	first := env.OptInt("first", 0)
+	naccts := env.OptInt("accts", 4)
+	depth := env.OptInt("depth", 24)
+	for t := first; t < first+n; t++ {
+		r := rand.New(rand.NewSource(env.Seed*7919 + int64(t)*104729 + 5))
+		b := &core.Behaviour{ID: fmt.Sprintf("rec-%d-%d", env.Seed, t)}
+		e := *env
+		e.Opts = map[string]string{"sign": []string{"secp256k1", "ed25519"}[t%2]}
+		d := &encDrv{recording: true}
+		if err := d.reset(&e, b); err != nil {
+			return nil, err
+		}
+		tmpl := map[string]any{"db": make([]any, naccts)}
+		emit(map[string]any{"ev": "Reset"})
+		var evs []any
+		nontrivial := false
+		do := func(st core.Step) error {
+			st["chk"] = tmpl
+			ret, chk, err := d.apply(st)
+			if err != nil {
+				return err
+			}
+			ev := map[string]any{"ev": st.Op(), "ret": ret, "chk": chk}
+			for k, v := range st {
+				if k != "op" && k != "chk" {
+					ev[k] = v
+				}
+			}
+			emit(ev)
+			sum.Steps++
+			if len(evs) < 10 {
+				evs = append(evs, ev)
+			}
+			return nil
+		}
+		origin := []string{"api", "legacy"}[r.Intn(2)]
+		cls := "short"
+		if origin == "legacy" {
+			cls = []string{"short", "b32", "long"}[r.Intn(3)]
+			nontrivial = true
+		}
+		if err := do(core.Step{"op": "Genesis", "origin": origin, "cls": cls}); err != nil {
+			d.close()
+			return nil, err
+		}
+		pres := []string{"right", "right", "right", "wrong", "samekey"}
+		for i := 0; i < depth; i++ {
+			locked := d.n.w.IsWalletLocked()
+			var free []int
+			for a := 1; a <= naccts; a++ {
+				if d.accts[a] == nil {
+					free = append(free, a)
+				}
+			}
+			var st core.Step
+			switch x := r.Intn(12); {
+			case x < 2 && !locked && len(free) > 0:
+				st = core.Step{"op": "Import", "a": float64(free[r.Intn(len(free))])}
+			case x < 4 && len(free) > 0:
+				st = core.Step{"op": "Inject", "a": float64(free[r.Intn(len(free))])}
+				nontrivial = true
+			case x < 8:
+				st = core.Step{"op": "SetPasswd", "old": pres[r.Intn(len(pres))], "new": []string{"fresh", "fresh", "same", "invalid"}[r.Intn(4)]}
+			case x < 10:
+				st = core.Step{"op": "Unlock", "pw": pres[r.Intn(len(pres))]}
+			case x < 11 && !locked:
+				st = core.Step{"op": "Lock"}
+			default:
+				st = core.Step{"op": "Restart"}
+			}
+			if err := do(st); err != nil {
+				d.close()
+				return nil, err
+			}
+		}
+		d.close()
+		sum.Behaviours++
+		if nontrivial {
+			sum.NonTrivial++
+		}
+		if len(sum.Samples) < 2 {
+			sum.Samples = append(sum.Samples, map[string]any{"trace_prefix": evs})
+		}
+	}
+	return sum, nil
 }
